@@ -49,8 +49,55 @@ def gen_cases(tier, seed):
     return cases
 
 
+CONFUSABLE = ["'a'", "u'a'", "b'a'", "''", "u''", "b''", "'text value'", "u'text value'", "b'text value'", 'True', 'False', 'None', "'1'", "u'1'", "'\\xe9'", "u'\\xe9'"]
+
+
+def typed_programs(seed, n):
+    """the program records (type name, repr) of every literal occurrence itself: values that compare equal across types must not be merged"""
+    r = common.rng(seed, 'C06-typed')
+    for i in range(n):
+        vals = r.sample(CONFUSABLE, r.randrange(2, 6))
+        lines = []
+        names = []
+        for j, v in enumerate(vals):
+            k = r.randrange(3, 6)
+            if r.random() < 0.5:
+                lines.append('X%d = [%s]' % (j, ', '.join([v] * k)))
+            else:
+                lines.append('def F%d():\n    return [%s]\nX%d = F%d()' % (j, ', '.join([v] * k), j, j))
+            names.append('X%d' % j)
+        lines.append('V = [[type(x).__name__, repr(x)] for x in %s]' % ' + '.join(names))
+        yield {'op': 'valeq', 'shape': 'typed-literals', 'src': '\n'.join(lines) + '\n',
+               'opts': dict(hoist_literals=True, rename_globals=r.random() < 0.5, rename_locals=r.random() < 0.5, remove_annotations=False, constant_folding=False, preserve_globals=['V'])}
+
+
 def main(tier, seed):
     run = runner.Run(PROP, tier, seed)
+    # ---- cross-interpreter layer: type identity of hoisted values (str / unicode / bytes on 2.7)
+    import os as _os
+    tcases = list(typed_programs(seed, 150 if tier == 'quick' else 2500))
+    for version, py in common.interpreters():
+        if version == '3.12-venv':
+            continue
+        if tier == 'quick' and version not in ('2.7.18', '3.6.15', '3.13.0', '3.9.18'):
+            continue
+
+        def on_t(c, r, version=version):
+            out = {'status': r.get('status'), 'violations': [], 'counters': {'typed_literal_programs_run': 1}, 'nontrivial': []}
+            if 'inconclusive' in r and r.get('status') is None:
+                out = r
+            if r.get('status') == 'error':
+                out = {'status': 'inconclusive', 'reason': 'minify raised (C08)'}
+            if r.get('changed'):
+                out['nontrivial'] = ['typed|%s|%s' % (version, common.sha(c['src']))]
+            for v in r.get('violations') or []:
+                out['violations'].append({'mech': None, 'detail': '%s: hoisting changed the type or value of a literal: %s' % (version, v['detail']),
+                                          'witness': {'interpreter': version, 'out': r.get('out')}})
+            run.add({'shape': c['shape'], 'interpreter': version, 'src': c['src'], 'opts': c['opts'], 'layer': 'typed'}, out)
+        env = common.clean_env()
+        env['PYTHONPATH'] = common.REPO_SRC
+        pool.run_cases(tcases, None, cmd=[py, '-W', 'ignore', _os.path.join(common.VERIF, 'vf', 'compat_worker.py')], env=env, timeout=20, batch=25, on_result=on_t,
+                       deadline=run.deadline)
     cases = gen_cases(tier, seed)
     heavy = [c for c in cases if c['shape'] in ('modgen', 'corpus')]
     light = [c for c in cases if c['shape'] not in ('modgen', 'corpus')]
@@ -70,8 +117,25 @@ def main(tier, seed):
              'hoist_literals on x rename_globals x rename_locals over all-off/default/random bases; non-trivial/distinct = distinct (source, option set) '
              'with at least one introduced constant alias',
         assumptions=['an alias is recognised as a leading `Name = Constant` statement of a def/module body that the input does not have'],
-        min_nontrivial=150, required_counters=['matcher_runs', 'constant_aliases', 'hoisted_uses'])
+        min_nontrivial=150, required_counters=['matcher_runs', 'constant_aliases', 'hoisted_uses', 'typed_literal_programs_run'])
 
 
 def replay(path):
+    w = runner.load_replay(path)
+    if w['case'].get('layer') == 'typed':
+        import json
+        import subprocess
+        import os as _os
+        c = w['case']
+        py = dict(common.interpreters())[c['interpreter']]
+        env = common.clean_env()
+        env['PYTHONPATH'] = common.REPO_SRC
+        p = subprocess.run([py, '-W', 'ignore', _os.path.join(common.VERIF, 'vf', 'compat_worker.py')],
+                           input=(json.dumps({'batch': [{'op': 'valeq', 'src': c['src'], 'opts': c['opts']}]}) + '\n').encode(), stdout=subprocess.PIPE, env=env, timeout=120)
+        r = json.loads(p.stdout.decode())['batch'][0]
+        print(json.dumps(r, indent=1)[:2000])
+        if r.get('violations'):
+            print('VIOLATION property=%s replay=%s' % (PROP, path))
+            return 1
+        return 0
     return nameeng.replay_case(path, PROP)
